@@ -1067,6 +1067,72 @@ func TestGocvReplay(t *testing.T) {
 	replayers["prefix:(kmipclient.Executor["] = replayers["scenario:C12"]
 	replayers["(*kmipclient.Client).Request"] = replayers["scenario:C12"]
 	replayers["(*kmipclient.Client).BatchOpt"] = replayers["scenario:C12"]
+	// key accessors (C14): every decodable shape with optional parts missing
+	replayers["scenario:C14"] = &Replayer{PkgDir: ".", Oracle: "SymmetricKey, SecretData, PublicKey, PrivateKey with every key format type x {no key value, wrapped only, plain without material, plain with each single material kind present}: every accessor returns normally (value or error), never panics",
+		Template: `package kmip
+
+import (
+	"testing"
+)
+
+func TestGocvReplay(t *testing.T) {
+	formats := []KeyFormatType{KeyFormatTypeRaw, KeyFormatTypeOpaque, KeyFormatTypePKCS_1, KeyFormatTypePKCS_8, KeyFormatTypeX_509, KeyFormatTypeECPrivateKey,
+		KeyFormatTypeTransparentSymmetricKey, KeyFormatTypeTransparentRSAPrivateKey, KeyFormatTypeTransparentRSAPublicKey,
+		KeyFormatTypeTransparentECDSAPrivateKey, KeyFormatTypeTransparentECDSAPublicKey, KeyFormatTypeTransparentECPrivateKey, KeyFormatTypeTransparentECPublicKey, 0, 999}
+	raw := []byte{1, 2, 3}
+	mats := map[string]KeyMaterial{
+		"none":    {},
+		"bytes":   {Bytes: &raw},
+		"sym":     {TransparentSymmetricKey: &TransparentSymmetricKey{Key: raw}},
+		"rsapriv": {TransparentRSAPrivateKey: &TransparentRSAPrivateKey{}},
+		"rsapub":  {TransparentRSAPublicKey: &TransparentRSAPublicKey{}},
+		"ecdsapriv": {TransparentECDSAPrivateKey: &TransparentECDSAPrivateKey{}},
+		"ecdsapub":  {TransparentECDSAPublicKey: &TransparentECDSAPublicKey{}},
+		"ecpriv":  {TransparentECPrivateKey: &TransparentECPrivateKey{RecommendedCurve: RecommendedCurveP_256}},
+		"ecpub":   {TransparentECPublicKey: &TransparentECPublicKey{RecommendedCurve: RecommendedCurveP_256, QString: raw}},
+	}
+	for _, f := range formats {
+		var kvs []*KeyValue
+		names := []string{"nil-keyvalue", "wrapped-only", "empty"}
+		kvs = append(kvs, nil, &KeyValue{Wrapped: &raw}, &KeyValue{})
+		for n, m := range mats {
+			names = append(names, "plain-"+n)
+			kvs = append(kvs, &KeyValue{Plain: &PlainKeyValue{KeyMaterial: m}})
+		}
+		for i, kv := range kvs {
+			kb := KeyBlock{KeyFormatType: f, KeyValue: kv}
+			try := func(what string, fn func()) {
+				defer func() {
+					if p := recover(); p != nil {
+						t.Fatalf("GOCV-REPRODUCED: {{.Obligation}}: %s panics on key format %d with %s: %v", what, f, names[i], p)
+					}
+				}()
+				fn()
+			}
+			try("KeyBlock.GetMaterial", func() { kb.GetMaterial() })
+			try("KeyBlock.GetBytes", func() { kb.GetBytes() })
+			try("KeyBlock.GetAttributes", func() { kb.GetAttributes() })
+			try("SymmetricKey.KeyMaterial", func() { (&SymmetricKey{KeyBlock: kb}).KeyMaterial() })
+			try("SecretData.Data", func() { (&SecretData{KeyBlock: kb}).Data() })
+			pub := &PublicKey{KeyBlock: kb}
+			try("PublicKey.RSA", func() { pub.RSA() })
+			try("PublicKey.ECDSA", func() { pub.ECDSA() })
+			try("PublicKey.CryptoPublicKey", func() { pub.CryptoPublicKey() })
+			try("PublicKey.PkixPem", func() { pub.PkixPem() })
+			priv := &PrivateKey{KeyBlock: kb}
+			try("PrivateKey.RSA", func() { priv.RSA() })
+			try("PrivateKey.ECDSA", func() { priv.ECDSA() })
+			try("PrivateKey.CryptoPrivateKey", func() { priv.CryptoPrivateKey() })
+			try("PrivateKey.Pkcs8Pem", func() { priv.Pkcs8Pem() })
+		}
+	}
+}
+`}
+	for _, fn := range []string{"(*kmip.KeyBlock).GetMaterial", "(*kmip.KeyBlock).GetBytes", "(*kmip.KeyBlock).GetAttributes", "(*kmip.SymmetricKey).KeyMaterial", "(*kmip.SecretData).Data",
+		"(*kmip.PublicKey).RSA", "(*kmip.PublicKey).ECDSA", "(*kmip.PublicKey).CryptoPublicKey", "(*kmip.PublicKey).PkixPem",
+		"(*kmip.PrivateKey).RSA", "(*kmip.PrivateKey).ECDSA", "(*kmip.PrivateKey).CryptoPrivateKey", "(*kmip.PrivateKey).Pkcs8Pem"} {
+		replayers[fn] = replayers["scenario:C14"]
+	}
 	replayers["ttlv.bytesToBigInt"] = &Replayer{PkgDir: "ttlv", Inputs: []ReplayInput{{Name: "V", Expr: "v", Kind: "bytes"}},
 		Oracle: "bytesToBigInt on the model's bytes returns normally and leaves its argument unchanged",
 		Template: strings.Replace(replayPrelude, "{{.Pkg}}", "ttlv", 1) + `
